@@ -58,7 +58,7 @@ def check_includes(hdrs, std, form, workdir, case, deep=True):
         fail("parse_file", case, label, "parse_file returned %r" % type(ast).__name__, "notfileast")
     if args != snapshot:
         fail("parse_file", case, label, "parse_file modified the caller's cpp_args: %r -> %r" % (snapshot, args), "cpp-args-modified")
-    if isinstance(args, list):
+    if isinstance(args, list) and deep:
         # the same list object given again (args built once, used for several files)
         try:
             again = parse_file(f1, use_cpp=True, cpp_args=args)
